@@ -6,6 +6,8 @@ import (
 	"fmt"
 	"go/token"
 	"go/types"
+	"math"
+	"math/rand"
 
 	"golang.org/x/tools/go/ssa"
 )
@@ -78,8 +80,17 @@ func (e *envState) libPtrType(pkg, name string) types.Type {
 	return t
 }
 
-// concrete-mode nondet source
-func (i *interpreter) concNondet(name, kind string, n int) []ReplayVal {
+// concrete-mode nondet source: either replays a vector or, in
+// generating mode (self-validation), draws a value and records it.
+func (i *interpreter) concNondet(name, kind string, gen func(r *rand.Rand) []uint64) ReplayVal {
+	if i.gen != nil {
+		rv := ReplayVal{Name: name, Kind: kind, Bits: gen(i.gen)}
+		if rv.Bits == nil {
+			rv.Bits = []uint64{}
+		}
+		i.concVec = append(i.concVec, rv)
+		return rv
+	}
 	if i.concPos >= len(i.concVec) {
 		panic(pathEnd{"unsupported", "replay vector exhausted at " + name})
 	}
@@ -88,7 +99,22 @@ func (i *interpreter) concNondet(name, kind string, n int) []ReplayVal {
 	if rv.Kind != kind {
 		panic(pathEnd{"unsupported", fmt.Sprintf("replay vector kind mismatch at %s: have %s want %s", name, rv.Kind, kind)})
 	}
-	return []ReplayVal{rv}
+	return rv
+}
+
+// interesting scalar values for self-validation vectors
+func genBits(r *rand.Rand, w int) uint64 {
+	edge := []uint64{0, 1, 2, ^uint64(0), 1 << 53, 1<<53 + 1, 1<<63 - 1, 1 << 63, 1<<63 + 1, 41, 42, 1000}
+	var v uint64
+	switch r.Intn(4) {
+	case 0:
+		v = edge[r.Intn(len(edge))]
+	case 1:
+		v = uint64(r.Intn(5))
+	default:
+		v = r.Uint64()
+	}
+	return v & mask(w)
 }
 
 func (rv ReplayVal) scalar(k types.BasicKind) value {
@@ -100,3 +126,5 @@ func (rv ReplayVal) scalar(k types.BasicKind) value {
 }
 
 var _ = ssa.BuilderMode(0)
+
+var _ = math.Pi
